@@ -277,6 +277,10 @@ def run(rep):
                 rep.violation(f"{early} bytes of the first message arrive with the CEA / CER: {verdict}", {"kind": "recv", "args": [seed, 2, "random", 1], "early": early})
                 break
     # a burst that fills the transport's read buffer exactly (4 x 64 KiB)
+    verdict, info = assoc.run_recv(7, 0, "huge", 1, fine=False)
+    rep.case(("huge",))
+    if verdict:
+        rep.violation(f"a message of 325,084 bytes (more than one socket read) followed by two small ones: {verdict}", {"kind": "recv", "args": [7, 0, "huge", 1], "fine": False})
     verdict, info = assoc.run_recv(5, 0, "buffer", 1, fine=False)
     rep.case(("buffer",))
     if verdict:
